@@ -192,7 +192,7 @@ fn par_map<T: Send, F: Fn(usize, &String) -> T + Sync>(cmds: &[String], f: F) ->
 pub fn expiry_enumeration(t: &Tables, cmds: &[String], dir: &str, nshards: usize, seed: u64, depth: i64, budget: u64, cap: u64, tag: &str) -> Value {
     // phase 1: reference runs
     struct Plan {
-        sc: Scenario,
+        cmd: String, // (the scenario is rebuilt per task: a board object is never shared between threads)
         full_ev: Value,
         ks: Vec<u64>,
         summary: Value,
@@ -237,7 +237,7 @@ pub fn expiry_enumeration(t: &Tables, cmds: &[String], dir: &str, nshards: usize
         };
         let full_ev = full_event(t, &sc, &full, kmax, d, tag, full.queries < budget);
         let summary = json!({"cmd": cmd, "D": d, "K": kmax, "runs": ks.len(), "exhaustive": kmax <= cap});
-        Some(Plan { sc, full_ev, ks, summary })
+        Some(Plan { cmd: cmd.clone(), full_ev, ks, summary })
     });
     let plans: Vec<Plan> = plans.into_iter().flatten().collect();
     // phase 2: one task per (scenario, chunk of expiry indices)
@@ -252,9 +252,13 @@ pub fn expiry_enumeration(t: &Tables, cmds: &[String], dir: &str, nshards: usize
         let pi: usize = it.next().unwrap().parse().unwrap();
         let c: usize = it.next().unwrap().parse().unwrap();
         let p = &plans[pi];
+        let sc = match scenario(t, &p.cmd) {
+            Some(sc) => sc,
+            None => return (pi, c, Vec::new()),
+        };
         let mut evs = Vec::new();
         for &k in p.ks.iter().skip(c * 64).take(64) {
-            let r = run_search(t, &p.sc.board, &p.sc.table, k);
+            let r = run_search(t, &sc.board, &sc.table, k);
             evs.push(json!({"ev": "srun", "k": k, "infos": r.infos, "sends": r.sends, "queries": r.queries,
                             "panic": r.panic, "rep_after": table_json(&r.table_after)}));
         }
